@@ -138,6 +138,9 @@ type Replay struct {
 	Actual   *trace.Trace   `json:"actual,omitempty"`
 	Output   string         `json:"emitted,omitempty"`
 
+	// C05 lock-step on a full-feature file (no model): the simulated disk content
+	FullFiles map[string]string `json:"full_files,omitempty"`
+
 	// hist
 	History *HistReplay `json:"history,omitempty"`
 	// fault
